@@ -778,8 +778,14 @@ fn load<'ast>(
 // Convert a pure-data Ast to a pure-data NickelValue.
 //
 // The mainline conversion creates `RecRecords`, but since they came from data we know they're just
-// normal Records. This is important for std.deserialize, since it expects deserialized data to be
-// evaluated.
+// normal Records.
+//
+// The fields of those records aren't closurized yet: they are arrays wrapped in `Closurize` by the
+// mainline conversion, other records, or variables standing for YAML anchors. Like arrays, the
+// records are thus wrapped in `Closurize`, so that their fields are closurized in the right
+// environment the first time they are evaluated. Otherwise, merging such a record with another one
+// (`(import "data.yaml") & {..}`, or a duplicated key) would take its fields for closures that are
+// already evaluated: the alias of an anchor would become an unbound identifier.
 fn ast_to_term(pos_table: &mut PosTable, ast: Ast<'_>) -> NickelValue {
     let value: NickelValue = ast.to_mainline(pos_table);
     value
@@ -789,7 +795,16 @@ fn ast_to_term(pos_table: &mut PosTable, ast: Ast<'_>) -> NickelValue {
 
                 Ok(match value.content() {
                     ValueContent::Term(TermContent::RecRecord(lens)) => {
-                        NickelValue::record(lens.take().record, pos_idx)
+                        let record = lens.take().record;
+
+                        if record.fields.is_empty() {
+                            NickelValue::record(record, pos_idx)
+                        } else {
+                            NickelValue::term(
+                                crate::term::Term::Closurize(NickelValue::record(record, pos_idx)),
+                                pos_idx,
+                            )
+                        }
                     }
                     lens => lens.restore(),
                 })
